@@ -10,8 +10,8 @@ CONSTANTS
   DomOffset = 0
   Start = 1
   Steps = {1, 2, 3, 5}
-  MaxNow = 13
-  WithRead = TRUE
+  MaxNow = 12
+  WithRead = FALSE
   GenDepth = 0
   ReqWeight = 1
 SPECIFICATION IPSpec
